@@ -1,1 +1,23 @@
-fn main(){}
+//! vf: the verification engines for tokio-rs/bytes (see /verif/DESIGN.md).
+#![allow(clippy::all)]
+#![allow(dead_code)]
+
+mod hist;
+mod histrun;
+mod oalloc;
+mod util;
+
+#[global_allocator]
+static GLOBAL: oalloc::Oracle = oalloc::Oracle;
+
+fn main() {
+    let args = util::Args::parse(std::env::args().skip(1));
+    let code = match args.pos.first().map(|s| s.as_str()) {
+        Some("hist") => histrun::main_hist(&args),
+        _ => {
+            eprintln!("usage: vf <hist|buf|tbl|fault|recycle|digest> [--key value]...");
+            2
+        }
+    };
+    std::process::exit(code);
+}
